@@ -337,6 +337,40 @@ def check_interleaved(ctx, src_a, src_b):
         ctx.violation('C18|tifa-raised|%s|%s' % (type(e).__name__, site_of(e)), case, traceback.format_exc()[-600:])
 
 
+MODULE_ATTRIBUTE_PAIRS = [
+    ('import math\nmath.pi = "3.14"\nprint(math.pi)\n', 'import math\nradius = 2\narea = math.pi * radius ** 2\nprint(area)\n'),
+    ('import random\nrandom.randint = 4\nprint(random.randint)\n', 'import random\nroll = random.randint(1, 6) + 1\nprint(roll)\n'),
+    ('import math\nmath.sqrt = "root"\nprint(math.sqrt)\n', 'import math\nside = math.sqrt(16) + 1\nprint(side)\n'),
+    ('import string\nstring.digits = 5\nprint(string.digits)\n', 'import string\nallowed = string.digits + "abc"\nprint(allowed)\n'),
+    ('import time\ntime.time = "now"\nprint(time.time)\n', 'import time\nstarted = time.time() + 1\nprint(started)\n'),
+]
+
+
+def check_after_a_program_that_assigns_to_a_module(ctx):
+    """The same code gives the same issues on a fresh report whatever was analysed before on another one - also a program that
+    assigned to an attribute of a standard module (TIFA follows such assignments within one analysis)."""
+    from pedal.core.report import Report
+    from pedal.core.commands import contextualize_report
+    from pedal.tifa import tifa_analysis
+
+    def alone(src):
+        r = Report()
+        contextualize_report(src, report=r)
+        return issue_list(tifa_analysis(report=r))
+    for src_a, src_b in MODULE_ATTRIBUTE_PAIRS:
+        case = {'src': src_b, 'origin': 'after-a-program-that-assigns-to-a-module', 'earlier': src_a}
+        try:
+            first = alone(src_b)
+            alone(src_a)
+            after = alone(src_b)
+            ctx.count('analyses_after_a_program_that_assigned_to_a_module')
+            ctx.case('modattr:' + src_a[:40] + src_b[:40])
+            if after != first:
+                ctx.violation('C18|same-code-other-issues-after-another-program-was-analysed|module-attribute', case, {'first': first[:6], 'after the other program': after[:6]})
+        except BaseException as e:
+            ctx.violation('C18|tifa-raised|%s|%s' % (type(e).__name__, site_of(e)), case, traceback.format_exc()[-600:])
+
+
 def check_given_code_in_a_section(ctx, src):
     """code handed to tifa_analysis(code=...) while a section of the submission is active: the issues are those of that code, on
     that code's own lines"""
@@ -464,6 +498,8 @@ def run(ctx):
             if i % 7 == 0:
                 check_given_code_in_a_section(ctx, src)
             previous = src
+    if ctx.shard % 4 == 2:
+        check_after_a_program_that_assigns_to_a_module(ctx)
     # 2. node snippets
     for i, (k, src) in enumerate(sorted(NODE_SNIPPETS.items())):
         if i % ctx.nshards == ctx.shard:
